@@ -701,6 +701,56 @@ func Monitor(prop string, c Case, sch *Schema, obs []OpObs) []Failure {
 				add(tx.Line, "", "unexpected auto mutation after a transition that %s", "should not trigger one")
 			}
 		}
+	case "C19":
+		groups := map[string][]int{}
+		for _, t := range strings.Fields(c.Lines[0]) {
+			if strings.HasPrefix(t, "groups=") {
+				for _, g := range strings.Split(t[7:], ";") {
+					p := strings.SplitN(g, ":", 2)
+					if len(p) == 2 {
+						groups[p[0]] = parseList(p[1])
+					}
+				}
+			}
+		}
+		for _, tx := range txs {
+			if tx.TE == nil {
+				continue
+			}
+			act := setOf(tx.TE.Active)
+			for x := range act {
+				if x >= n {
+					continue
+				}
+				for _, q := range sch.Defs[x].Require {
+					if !act[q] {
+						add(tx.Line, "", "Require: %s active without state %d", sch.Names[x], q)
+					}
+				}
+			}
+			for g, l := range groups {
+				mutual := len(l) >= 2
+				for _, x := range l {
+					for _, y := range l {
+						if x != y && (x >= n || !contains(sch.Defs[x].Remove, y)) {
+							mutual = false
+						}
+					}
+				}
+				if !mutual {
+					continue
+				}
+				cnt := 0
+				for _, x := range l {
+					if act[x] {
+						cnt++
+					}
+				}
+				if cnt > 1 {
+					add(tx.Line, "", "group %s has %d members active", g, cnt)
+				}
+			}
+		}
 	case "C14":
 		for li, o := range obs {
 			if !o.IsOp || o.Crash != "" {
